@@ -7,6 +7,9 @@ import (
 	"path/filepath"
 	"sort"
 	"strings"
+
+	"github.com/mmcloughlin/avo/operand"
+	"github.com/mmcloughlin/avo/reg"
 )
 
 // ---- deterministic PRNG (SplitMix64): every random choice derives from VERIF_SEED ----
@@ -189,4 +192,18 @@ func readFile(p string) []byte {
 		die(err)
 	}
 	return b
+}
+
+// Memory operands are built from struct literals here, never through the helper methods of package
+// operand (NewStackAddr, NewParamAddr, NewDataAddr, Mem.Offset, Mem.Idx): those are code under test
+// (memhelpers.go), and an input built through them would inherit their faults unnoticed.
+func stackMem(off int) operand.Mem { return operand.Mem{Base: reg.StackPointer, Disp: off} }
+func paramMem(name string, off int) operand.Mem {
+	return operand.Mem{Symbol: operand.Symbol{Name: name}, Base: reg.FramePointer, Disp: off}
+}
+func dataMem(sym operand.Symbol, off int) operand.Mem {
+	return operand.Mem{Symbol: sym, Base: reg.StaticBase, Disp: off}
+}
+func idxMem(m operand.Mem, r reg.Register, s uint8) operand.Mem {
+	return operand.Mem{Symbol: m.Symbol, Disp: m.Disp, Base: m.Base, Index: r, Scale: s}
 }
